@@ -17,7 +17,8 @@ RULE = (
     "and both unroll_arrays settings the list returned by make_encoder('packed').generate(impl) is "
     "checked (a) structurally: starts at 0, contiguous, no overlap, unique names, total = struct "
     "size; (b) against the reference layout (names, order, widths); (c) history: one long-lived "
-    "encoder serves a random sequence of 5-60 generate() calls (repeats, all bindings), every result "
+    "encoder serves a random sequence of 5-60 generate() calls (repeats, all bindings, and calls that "
+    "fail part-way because the struct has a variable-size field), every result "
     "must equal a fresh encoder's and every previously returned list must stay unchanged; (d) "
     "options: a scalar field's signal block appears exactly on that field's leaf, leaves of "
     "differently named fields carry none.  distinct = (shape signature of the struct, unroll, "
@@ -142,7 +143,12 @@ def check_decls(run, decls, r):
             bindings.append((dd, impls[0]))
     for unroll in (True, False):
         fresh = {}
+        failing = []
         for bi, (d, impl) in enumerate(bindings):
+            try:
+                RL.layout(sch, d["type"], unroll)
+            except RL.Outside:
+                failing.append(bi)
             got = check_binding(run, fcp, sch, d, impl, unroll, text)
             if got is not None:
                 fresh[bi] = snap(got)
@@ -159,6 +165,17 @@ def check_decls(run, decls, r):
         returned = []
         keys = sorted(fresh)
         for step in range(r.randint(5, run.pick(25, 60))):
+            if failing and r.random() < 0.25:
+                # a call the encoder cannot serve (variable-size field / array of structs without
+                # unrolling): whatever it does - normally raise - later calls must be unaffected
+                fd, fimpl = bindings[r.choice(failing)]
+                try:
+                    enc.generate(fimpl)
+                except Exception:
+                    pass
+                hist.append("(failing) " + S.impl_name(fd) + "/" + fd["protocol"])
+                run.count("history_failing_calls")
+                continue
             bi = r.choice(keys)
             d, impl = bindings[bi]
             case = {"schema": text, "unroll_arrays": unroll, "history": hist + [S.impl_name(d) + "/" + d["protocol"]], "description": decls, "history_seed": None}
@@ -199,7 +216,7 @@ def run(run):
 
 
 def conclude(run):
-    run.require("layouts_checked", "option_leaves_checked", "history_steps", "histories")
+    run.require("layouts_checked", "option_leaves_checked", "history_steps", "histories", "history_failing_calls")
 
 
 def replay(run, case):
